@@ -80,8 +80,26 @@ func compressJobs(tier, prop string) []*Job {
 			}
 		}
 	}
+	// match-length family: a run of one byte whose length the solver chooses in a window of 17
+	// values, then at least 20 concrete distinct bytes: the long match takes every length around
+	// the points where the length code gains an extension byte: 4+15 (n = 48: runs 12..28),
+	// 4+15+255 (n = 303: runs 267..283), 4+15+510 (n = 558: runs 522..538)
+	matchlen := func(kinds []int, dls func(n int) []int) {
+		for _, n := range []int{48, 303, 558} {
+			for _, kind := range kinds {
+				d := 0
+				if kind >= 3 {
+					d = 1
+				}
+				for _, dl := range dls(n) {
+					addP(n, kind, d, dl, 1016, 20, "verif,noasm")
+				}
+			}
+		}
+	}
 	switch prop {
 	case "C01":
+		matchlen([]int{0, 3}, func(n int) []int { return []int{-1} })
 		for n := 0; n <= nf; n++ {
 			for _, kind := range []int{0, 1, 2} {
 				add(n, kind, 0, -1, "verif,noasm")
@@ -147,6 +165,7 @@ func compressJobs(tier, prop string) []*Job {
 		}
 		periodic([]int{0, 3}, func(n int) []int { return []int{-1, -2, n / 2, n / 4} })
 		litrun([]int{0, 3}, func(l, n int) []int { return []int{-1, -2, l + 8} })
+		matchlen([]int{0, 3}, func(n int) []int { return []int{-1} })
 	case "C11":
 		nf, nh = nf-2, nh-1
 		for n := 0; n <= nf; n++ {
@@ -173,6 +192,14 @@ func compressJobs(tier, prop string) []*Job {
 				}
 			}
 			add(n, 5, 1, bound, "verif,noasm")
+		}
+		matchlen([]int{0, 3}, func(n int) []int { return []int{-1, -2, 8} })
+		// history: a call that failed (or succeeded) on another source first, then a destination of
+		// the bound size must still give a complete block
+		for _, j := range histJobs(tier) {
+			if j.Harness == "H_compress_hist" {
+				jobs = append(jobs, j)
+			}
 		}
 		periodic([]int{0, 3}, func(n int) []int { return []int{-1, -2, n / 2, n / 4, 8, 3} })
 		litrun([]int{0, 3}, func(l, n int) []int {
@@ -317,6 +344,7 @@ func compressBounds(prop string) func(string) []string {
 		}
 		return []string{
 			fmt.Sprintf("every source content (all bytes symbolic) at each length 0..%d for the fast compressor and 0..%d for the HC compressor (depths 0, 1, 2, 3, 512, 65537)", nf, nh),
+			"match-length family: a run of one byte whose length the solver chooses among 17 values, followed by at least 20 concrete distinct bytes (n = 48, 303, 558: runs 12..28, 267..283, 522..538): the long match takes every length around 4+15, 4+15+255 and 4+15+510, where its length code gains an extension byte; content concrete; fast and HC",
 			"periodic family: sources of 24..300 (thorough ..560) bytes = a symbolic first period (1,2,3 bytes) repeated, plus 0..13 free symbolic bytes at the end (0..5 for reused-state, HC and 560-byte runs) (long matches, multi-byte length codes, matches running into the last 5/12 bytes)",
 			"literal-run family: a literal run of exactly l concrete repeat-free bytes (l around 15 and 15+255: 13..17, 30, 269..271) followed by a match and 0/2 symbolic bytes, with destination lengths 0..5, l..l+8, n/2, bound-2..bound (C11)",
 			"history family (C14): the same object first compresses another (periodic) source into a destination that is too short (or large enough), then the source under test; compared with a fresh object",
@@ -353,7 +381,7 @@ func init() {
 			filter = func(id string) bool { return id == "block-strictly-valid" || id == "block-decodes" || id == "block-decodes-to-source" }
 		case "C11":
 			filter = func(id string) bool {
-				return id == "src-unmodified" || id == "no-write-beyond-len" || id == "count-le-len" || id == "bound-size-succeeds" || id == "block-decodes" || id == "block-decodes-to-source" || hasPrefix(id, "no-panic") || hasPrefix(id, "unwind")
+				return id == "src-unmodified" || id == "no-write-beyond-len" || id == "count-le-len" || id == "bound-size-succeeds" || id == "block-decodes" || id == "block-decodes-to-source" || hasPrefix(id, "roundtrip-hist") || hasPrefix(id, "no-panic") || hasPrefix(id, "unwind")
 			}
 		}
 		checkDefs[prop] = &CheckDef{
